@@ -56,6 +56,62 @@ func storeForClass(spec world.Spec, class string) string {
 	return spec.ClassMap[class] // "" = default
 }
 
+// c14Routing is the routing oracle of C14: when the driver's last operation
+// was a successful transition of an object version, all parts of that version
+// must be recorded in and listed by the part store the class map assigns to the
+// target class. checked reports whether a transitioned version was examined.
+func c14Routing(d *Driver, w *world.World, spec world.Spec) (checked bool, v *Violation) {
+	if !strings.HasPrefix(d.LastOp, "Transition(") || d.StepErr != nil {
+		return false, nil
+	}
+	// parse "Transition(bucket/key@ver -> CLASS)"
+	body := strings.TrimSuffix(strings.TrimPrefix(d.LastOp, "Transition("), ")")
+	lr := strings.SplitN(body, " -> ", 2)
+	bk := strings.SplitN(lr[0], "@", 2)
+	bkp := strings.SplitN(bk[0], "/", 2)
+	bucket, key, mv, class := bkp[0], bkp[1], bk[1], lr[1]
+	mb := d.M.Buckets[bucket]
+	if mb == nil {
+		return false, nil
+	}
+	var ver = mb.Current(key)
+	if mv != "-" {
+		for _, v := range mb.Keys[key].Versions {
+			if v.ID == mv {
+				ver = v
+			}
+		}
+	}
+	if ver == nil || ver.Marker {
+		return false, nil
+	}
+	return true, c14PartsInStore(d, w, spec, bucket, key, ver.ID, class, "after "+d.LastOp)
+}
+
+// c14PartsInStore checks that every part of one object version is recorded in
+// and listed by the store mapped to class.
+func c14PartsInStore(d *Driver, w *world.World, spec world.Spec, bucket, key, mv, class, when string) *Violation {
+	want := storeForClass(spec, class)
+	ps, err := partsOfVersion(w, bucket, key, d.realID(bucket, key, mv))
+	if err != nil {
+		return nil
+	}
+	stored, err := w.StoredParts(context.Background())
+	if err != nil {
+		return nil
+	}
+	for _, p := range ps {
+		if p[0] != want {
+			return d.rc.Fail("routing", "parts-not-in-target-store", "%s the part %s of the object is recorded in store %q, but class %s maps to store %q", when, p[1], p[0], class, want)
+		}
+		if !stored[want][p[1]] {
+			return d.rc.Fail("routing", "part-missing-in-target-store", "%s the part %s is not listed by the target store %q", when, p[1], want)
+		}
+	}
+	d.rc.Stats.Add("c14.parts_checked", int64(len(ps)))
+	return nil
+}
+
 func runC14(rc *RunCtx) (*Violation, error) {
 	g := rc.Gen()
 	// always named stores; no erasure coding (root-side store listing)
@@ -101,49 +157,11 @@ func runC14(rc *RunCtx) (*Violation, error) {
 	transitions := 0
 	// after every successful transition the transitioned version's parts must be in the store mapped to its class
 	routing := func(d *Driver) *Violation {
-		if !strings.HasPrefix(d.LastOp, "Transition(") || d.StepErr != nil {
-			return nil
+		checked, v := c14Routing(d, curWorld, curSpec)
+		if checked {
+			transitions++
 		}
-		// parse "Transition(bucket/key@ver -> CLASS)"
-		body := strings.TrimSuffix(strings.TrimPrefix(d.LastOp, "Transition("), ")")
-		lr := strings.SplitN(body, " -> ", 2)
-		bk := strings.SplitN(lr[0], "@", 2)
-		bkp := strings.SplitN(bk[0], "/", 2)
-		bucket, key, mv, class := bkp[0], bkp[1], bk[1], lr[1]
-		mb := d.M.Buckets[bucket]
-		if mb == nil {
-			return nil
-		}
-		var ver = mb.Current(key)
-		if mv != "-" {
-			for _, v := range mb.Keys[key].Versions {
-				if v.ID == mv {
-					ver = v
-				}
-			}
-		}
-		if ver == nil || ver.Marker {
-			return nil
-		}
-		transitions++
-		want := storeForClass(curSpec, class)
-		ps, err := partsOfVersion(curWorld, bucket, key, d.realID(bucket, key, ver.ID))
-		if err != nil {
-			return nil
-		}
-		stored, err := curWorld.StoredParts(context.Background())
-		if err != nil {
-			return nil
-		}
-		for _, p := range ps {
-			if p[0] != want {
-				return d.rc.Fail("routing", "parts-not-in-target-store", "after %s the part %s of the object is recorded in store %q, but class %s maps to store %q", d.LastOp, p[1], p[0], class, want)
-			}
-			if !stored[want][p[1]] {
-				return d.rc.Fail("routing", "part-missing-in-target-store", "after %s the part %s is not listed by the target store %q", d.LastOp, p[1], want)
-			}
-		}
-		return nil
+		return v
 	}
 	d.AfterOp = routing
 	var viol *Violation
